@@ -3,6 +3,7 @@ import os
 
 import common
 import corr_pq
+import corr_fp
 import gen_rulesets
 
 PQ_SITES = ['qi_lt', 'qi_le', 'qi_eq', 'qi_ne', 'qi_gt', 'qi_ge', 'pq_init', 'pq_next', 'pq_insert',
@@ -10,8 +11,9 @@ PQ_SITES = ['qi_lt', 'qi_le', 'qi_eq', 'qi_ne', 'qi_gt', 'qi_ge', 'pq_init', 'pq
             'rec_restore', 'ipa']
 
 PQ_TRUSTED = [
-    'IEEE-754 binary64: fl(a*b) is monotone in each argument on finite non-negative doubles and < / == '
-    'relate as on a total preorder (PAlg laws for the Float instance; not proved in Lean)',
+    'binary64: the PAlg laws are PROVED for the model SF.mul / <= on units (Lemmas/SoftFloatLemmas.lean: correctly rounded, '
+    'monotone, closed on [0,1]) and instantiated (*_binary64 theorems); trusted is only that CPython\'s float * and <= on finite '
+    'non-negative doubles are IEEE-754 round-to-nearest-even, which the fp stream compares bit for bit with SF.mul on every run',
     'CPython heapq pops an element that no other element precedes under QueueItem.__lt__',
     'modelled, not verified: max_queue_size / min_probability trimming (dead code: never changed from 50000 / 0.0)',
 ]
@@ -105,8 +107,11 @@ def run(ctx, focus):
                                       'witness': {'spec': m[2], 'flags': m[3]} if m else None})
                 if len(disagreements) >= 5:
                     break
+        fp_dis, fp_info = corr_fp.run(ctx)
+        disagreements += fp_dis
     else:
         disagreements.append({'stream': 'pq', 'detail': 'driver does not build'})
+        fp_info = {}
     cli_runs = 0
     if focus == 'C08':
         # the whole resume path of the program: a session started with option flags writes its save file; `--load` (flags taken
@@ -151,7 +156,7 @@ def run(ctx, focus):
                 '(nodes, structures, positions, tie, equal-neighbour) signature',
         'samples': samples, 'disagreements': disagreements, 'violations': violations, 'distribution': dist,
         'exhaustive': False,
-        'extra': {'protocol_ops': len(ops), 'resume_cuts': cuts},
+        'extra': dict({'protocol_ops': len(ops), 'resume_cuts': cuts}, **fp_info),
     }
 
 
